@@ -155,11 +155,7 @@ func cmdCheck(args []string) {
 		fmt.Printf("translator validation: %d fixtures of %s/testdata, native outcomes computed\n", n, *repo)
 		break
 	}
-	ov, err := loadOverlay(*repo, filepath.Join(verifDir, "harness"))
-	if err != nil {
-		fatal2("overlay: %v", err)
-	}
-	eng, err := sym.Load(*repo, ov)
+	eng, err := loadEngine(*repo, filepath.Join(verifDir, "harness"))
 	if err != nil {
 		fatal2("load: %v", err)
 	}
@@ -167,6 +163,9 @@ func cmdCheck(args []string) {
 
 	var reports []*sym.Report
 	inconclusive := map[string]int{}
+	for f, e := range droppedHarnessFiles {
+		fmt.Printf("harness file %s does not compile against this tree and was left out: %s\n", f, e)
+	}
 	reachAgg := map[string]int{}
 	for _, h := range spec.Harnesses {
 		if *onlyH != "" && !strings.Contains(h.Fn, *onlyH) {
@@ -702,6 +701,9 @@ func (r *replayer) build(pkg string) (string, error) {
 	}
 	filepath.Walk(hdir, func(p string, info os.FileInfo, err error) error {
 		if err != nil || info.IsDir() || !strings.HasSuffix(p, ".go") {
+			return nil
+		}
+		if _, skip := droppedHarnessFiles[filepath.Base(p)]; skip {
 			return nil
 		}
 		rel, _ := filepath.Rel(hdir, p)
